@@ -64,6 +64,26 @@ def tableGet (t : List Int) (i : Int) : Int := t.getD i.toNat 0
 def guardRange {α} (vals : List Int) (k : R α) : R α :=
   if vals.all (fun x => decide (0 ≤ x) && decide (x < 256)) then k else .error (.py "ValueError")
 
+/-- `b[i]` as a Python int, constant (possibly negative) index -/
+def indexI (l : Bytes) (i : Int) : R Int :=
+  match Py.index l i with | .ok b => .ok (b.toNat : Int) | .error e => .error e
+
+/-- `n.to_bytes(k, "little" | "big")` on a Python int: OverflowError when negative or too large -/
+def toBytesLEI (k : Nat) (n : Int) : R Bytes :=
+  if n < 0 then .error (.py "OverflowError") else toBytesLE k n.toNat
+def toBytesBEI (k : Nat) (n : Int) : R Bytes :=
+  if n < 0 then .error (.py "OverflowError") else toBytesBE k n.toNat
+
+/-- `try: … except <cls>: raise <e>` around one operation -/
+def mapErr {α} (cls : String) (e : Err) (r : R α) : R α :=
+  match r with
+  | .error (.py c) => if c = cls then .error e else .error (.py c)
+  | r => r
+
+/-- `Crypto.Util.strxor.strxor`: ValueError unless both have the same length -/
+def strxor (a b : Bytes) : R Bytes :=
+  if a.length ≠ b.length then .error (.py "ValueError") else .ok (xorBytes a b)
+
 theorem band_ofNat (n m : Nat) : band (n : Int) m = ((n % 2 ^ bitLen m &&& m : Nat) : Int) := by
   unfold band
   have : ((n : Int) % ((2 ^ bitLen m : Nat) : Int)) = ((n % 2 ^ bitLen m : Nat) : Int) := by
